@@ -76,6 +76,46 @@ func violates(t *testing.T, spec syncdrv.ChainSpec, hist []syncdrv.Item, tmp, si
 	return false
 }
 
+
+// daStream runs the DA-ingress scenarios (real RetrieveLoop + SyncLoop on a scripted DA layer, stop at a
+// generated instant, restart, converge).  Oracle only.
+func daStream(t *testing.T, e *vgen.Env, res *vgen.Result, tmp string, crash bool, replay *syncdrv.DAScenario) {
+	var scs []syncdrv.DAScenario
+	if replay != nil {
+		scs = append(scs, *replay)
+	} else {
+		n := 14
+		if e.Tier == "thorough" {
+			n = 120
+		}
+		for c := 0; c < n; c++ {
+			sc := syncdrv.GenDAScenario(syncdrv.CaseRng(e.Seed+977, c))
+			sc.Crash = crash
+			scs = append(scs, sc)
+		}
+	}
+	for _, sc := range scs {
+		c, err := syncdrv.ChainFor(sc.Chain, tmp)
+		if err != nil {
+			t.Fatalf("producing the chain: %v", err)
+		}
+		r := syncdrv.RunDAScenario(t, c, sc, tmp)
+		res.Evaluations++
+		res.Count("da-ingress:scenarios")
+		if r.StoppedAt {
+			res.Count("da-ingress:stopped-right-after-a-commit")
+		}
+		if r.HeightEnd > r.HeightStop {
+			res.Count("da-ingress:progress-after-restart")
+		}
+		scc := sc
+		for _, v := range r.Viol {
+			res.Violations = append(res.Violations, vgen.Violation{Signature: v.Sig, What: v.What, Case: -1,
+				Replay: syncdrv.Replay{Seed: e.Seed, Case: -1, Chain: sc.Chain, DA: &scc}})
+		}
+	}
+}
+
 func TestVerif(t *testing.T) {
 	e := vgen.GetEnv()
 	res := vgen.NewResult("C05", e)
@@ -90,7 +130,11 @@ func TestVerif(t *testing.T) {
 		if err := vgen.LoadReplay(e.Replay, &rp); err != nil {
 			t.Fatal(err)
 		}
-		jobs = append(jobs, job{rp: rp})
+		if rp.DA != nil {
+			daStream(t, e, res, tmp, true, rp.DA)
+		} else {
+			jobs = append(jobs, job{rp: rp})
+		}
 	} else {
 		if os.Getenv("VERIF_NO_CORPUS") == "" {
 			files, _ := filepath.Glob("../corpus/C05/*.json")
@@ -104,6 +148,9 @@ func TestVerif(t *testing.T) {
 		for c := 0; c < e.N; c++ {
 			jobs = append(jobs, genJobs(t, e.Seed, c, e.Tier, tmp)...)
 		}
+	}
+	if e.Replay == "" {
+		daStream(t, e, res, tmp, true, nil)
 	}
 	var defs, cases []string
 	defs = append(defs, syncdrv.BadCase)
@@ -159,7 +206,7 @@ func TestVerif(t *testing.T) {
 		}
 	}
 	res.Distinct = len(distinct)
-	res.Rule = "VERIF_N base chains of 3..6 blocks (thorough ..10) with a base history as in C02 (1/3 with a clean restart, so cache files exist); for every event that applies blocks and EVERY prefix k of its atomic datastore writes: history = events before it, crash after k writes, (20%) a further crash during start-up, all events again in a fresh order, (25%) with a second crash inside a later application followed by all events again; distinct = distinct (chain, history) pairs"
+	res.Rule = "VERIF_N base chains of 3..6 blocks (thorough ..10) with a base history as in C02 (1/3 with a clean restart, so cache files exist); for every event that applies blocks and EVERY prefix k of its atomic datastore writes: history = events before it, crash after k writes, (20%) a further crash during start-up, all events again in a fresh order, (25%) with a second crash inside a later application followed by all events again; distinct = distinct (chain, history) pairs; plus the DA-ingress scenario stream (real RetrieveLoop + SyncLoop on a scripted DA layer, stop right after a commit, restart, converge; oracle only)"
 	res.Cases = len(cases)
 	path := filepath.Join(e.Out, "cases_C05.v")
 	if err := vgen.WriteCases(path, syncdrv.CoqHeader, defs, "scase", cases, "mismatches"); err != nil {
